@@ -29,6 +29,27 @@ class ChanSpec(diffprop.Spec):
             lines.append("%s crash harness-exit-%d %s" % (self.id, rc, se[-300:].replace("\n", " ")))
         return lines
 
+    def targeted(self, seed, res, tier):
+        """targeted escalation: the scenarios in which the correspondence broke, under many more schedules
+        (random with other schedule seeds, and preemption-bounded DFS), before fresh scenarios are tried"""
+        import re
+        seen, lines = [], []
+        for c, idx in res["diffs"]:
+            m = re.match(r"%s-(\d+)-(r|dfs)\d+$" % self.id, c["id"])
+            if m and (m.group(1), m.group(2)) not in seen:
+                seen.append((m.group(1), m.group(2)))
+            if len(seen) >= 5:
+                break
+        for i, kind in seen:
+            base = seed if kind == "r" else seed + 7
+            # the DFS generator skips big scenarios: -dfsany keeps the numbering of the random mode
+            if kind == "r":
+                rc, so, se = core.run([os.path.join(core.BIN, "nvhc"), "-prop", self.id, "-seed", str(base), "-count", str(int(i) + 1), "-only", i, "-scheds", "240"], timeout=600)
+                lines += [l for l in so.split("\n") if l]
+            rc, so, se = core.run([os.path.join(core.BIN, "nvhc"), "-prop", self.id, "-seed", str(base), "-count", str(int(i) + 1), "-only", i, "-dfs", "3", "-dfscap", "1500"] + ([] if kind == "dfs" else ["-dfsany"]), timeout=600)
+            lines += [l for l in so.split("\n") if l]
+        return lines
+
     def nontrivial(self, line, answer):
         t = line.split()
         return t[1] == "end"
